@@ -42,6 +42,8 @@ type Contract struct {
 	Refines   string // key of the concrete method whose proved contract an interface contract restates
 	Exports   []Clause // named post-state values (Label = name)
 	Created   []Clause // closure contracts: conditions checked where the closure value is made
+	Assumed   string   // non-empty: the body is not verified anywhere; the text says why
+	Unclaimed [][2]string // obligation-name substrings not claimed by any property, with reasons
 	IsFuncType bool // contract on calls through values of a named func type
 	Params    []string
 	Results   []string
@@ -301,6 +303,23 @@ func ParseContracts(pkgPath, file string, text string) ([]*Contract, []*Def, err
 				return nil, nil, fail(d, err)
 			}
 			cur.Ensures = append(cur.Ensures, cl)
+		case "assumed":
+			// assumed because "...": this contract is used by callers but its body is
+			// NOT verified by any check (listed as ASSUMED in every evidence file)
+			cur.Assumed = strings.TrimSpace(d.text)
+			if cur.Assumed == "" {
+				cur.Assumed = "no reason given"
+			}
+		case "unclaimed":
+			// unclaimed <obligation-name-substring> because "...": obligations of this
+			// function whose name contains the substring are generated but not claimed
+			// by any property (the execution continues past them as if they held)
+			txt := strings.TrimSpace(d.text)
+			sub, why := txt, ""
+			if j := strings.Index(txt, " because "); j >= 0 {
+				sub, why = strings.TrimSpace(txt[:j]), strings.TrimSpace(txt[j+9:])
+			}
+			cur.Unclaimed = append(cur.Unclaimed, [2]string{sub, why})
 		case "created":
 			// created requires <expr>: on a closure contract; checked at the point
 			// where the closure value is made, in the parent's context
